@@ -10,7 +10,19 @@ Mode: lattice sweep (complete products, nothing sampled). Sub-checks ("sub" of a
            un-refined grids - thorough: every spec, quick: one Levy and one exponential twin of hem / merton / vg /
            cgmy y=0.5 / cgmy y=1.2  x  declared representation in
            {as constructed, ZERO, CENTER, ONEONE, TILDE}, set with model.levy_triplet.set_representation(R) BEFORE the chain
-           is built  x  grid spec of mc.alphabets.grid_specs  x  0..k refinements).  The real MarkovChainProcess is built
+           is built  x  grid spec of mc.alphabets.grid_specs  x  0..k refinements).  Added input classes (cases()):
+             ties       every plain spec (CGMY y = 1 and y = 0: Blumenthal-Getoor index exactly 1 and exactly 0; the sigma = 0
+                        parameter sets) x REPS on TIE_GRIDS: states / truncation exactly at the cut-off +-1, h/2 = 1 (central cell
+                        = [-1, 1]), a cell boundary on the cut-off, truncation = cut-off;
+             two hops   "R1>R2": two successive set_representation calls, every ordered pair (the conversion FROM every
+                        representation, TILDE included - the chain itself only ever converts TO TILDE);
+             forms      "form": the constructor arguments as Python ints where integral (y = 1, y = 0, sigma = 0, spot = 100)
+                        and numpy float64 elsewhere ("int"), or as 0-d arrays ("0d");
+             copies     "copied": the model is a copy.deepcopy / dill round trip / copy.copy of the one constructed; after a
+                        deep or dill copy the ORIGINAL is disturbed (_disturb_model: other representation, other a and sigma,
+                        measure truncated, rate moved) - the copy must not notice;
+             deep       DEEP = 4 refinements of the small grids; next_level = n: n successive levels through the coupling.
+           The real MarkovChainProcess is built
            (once per sampling method of the case), initialisation(product) is called, and these are observed:
            process_drift(); the per-state rates in two independent ways - (m) the process's own truncated model mass() on
            reference cells re-derived from the axis with the grid's middle(), (s) the law of the sampler actually built,
@@ -35,11 +47,35 @@ Mode: lattice sweep (complete products, nothing sampled). Sub-checks ("sub" of a
                                               the SAME model on the SAME grid object with the other n-d sampling method
                                               (its drift and diffusion matrix must be the same), and one of the margins reversed
              deepcopy-then-init               copy.deepcopy(process).initialisation(vanilla): the copy and the original
-           Finally (cases with <= 1 refinement) the route the multilevel engine takes to a refinement level: the grid OBJECT of
+             dill-then-init                   the same with a dill round trip (what a pool worker receives)
+             deepcopy-then-simulate / dill-then-simulate   the copy used as it is, WITHOUT a new initialisation (Engine.price
+                                              deep-copies the initialised coupling and simulates): drift, coefficient, paths
+             init-max-step-int-epsilon-at-maturity         max_step_epsilon = 1 (Python int, = maturity)
+             init-max-step-numpy-epsilon-positional        initialisation(cds, numpy.float64(0.3)) - positional
+           Every simulator class is simulated with 2 jumps per interval and once with NO jump at all (the fallback branches
+           of the jump-time simulators).  deterministic_path is also called with every legal form of its argument (integer-dtype
+           array, (1, n) array, Python / numpy scalars, 0-d array): same numbers as with the float array (exact), the caller's
+           array untouched, the array returned not a reference to the process's state.
+           After the menu: the caller's grid object (axis, origin, h) is as it was; then the CALLER disturbs its own model
+           object (_disturb_model) and the chain is initialised again: drift and coefficient of before (the chain owns a deep
+           copy; it keeps no reference to the caller's model).
+           Public functions called directly on every case: compute_mu_h with the axis as the grid's own array / list / tuple /
+           fresh array and the origin as int / numpy integer / 0-d array (same answer, = sum x_k mass(cell_k), axis untouched);
+           vol_adjustment with h as float / numpy scalar / 0-d array / int (same answer, sigma^2 + its square =
+           equivalent_diffusion_coefficient^2); deep and dill copies of the triplet taken before a conversion are what the
+           original was and convert to the same drift (exact).
+           Finally (flagged cases) the route the multilevel engine takes to a refinement level: the grid OBJECT of
            the case, already used by the chains above, goes to CouplingMarkovChain(model, method, grid).initialisation(product);
            next_level(0, None, product) refines it in place and builds the next chain: mean identity (cell masses), added
-           variance of that chain, and the coupling's equivalent_diffusion_coefficient_fine / _coarse.
- copula    one case per (pair of margins in both orders of finite / infinite variation, or triple with the infinite-variation
+           variance of that chain, and the coupling's equivalent_diffusion_coefficient_fine / _coarse.  Levels 2..n (next_level
+           = n) are reached as Engine.price reaches them: copy.deepcopy of the coupling of the level before, next_level WITH a
+           path manager (MLMCPath on the fine deterministic path): the same identities on every level, the fine / coarse
+           deterministic paths of the new manager grow by the drift of the chain of the level / of the level before, and the
+           coupling that was copied keeps its grid and drift.
+ copula    (margins of mc.alphabets.MARGINS plus cgmy10 / cgmy00: CGMY y = 1 and y = 0, the ties of the Blumenthal-Getoor
+           index; tie pairs on the un-refined small grids; the copula model reached through a deepcopy / dill copy whose
+           original is disturbed; one chain of dimension 4 - drift and diffusion matrix only)
+           one case per (pair of margins in both orders of finite / infinite variation, or triple with the infinite-variation
            margin first, in the middle or last; Levy and exponential, copula, representation applied to every margin that
            admits it or MIXED = margin k declared in (CENTER, ONEONE, TILDE)[k % 3], 2-d / 3-d grid, refinements):
            MarkovChainLevyCopula, initialisation(product), _process_drift per margin, _path_simulation.diffusion_matrix, the
@@ -78,7 +114,10 @@ R with cut-off c_R of mc.oracle.cutoff, all integrals by quadrature of the model
  copula-mean   per margin k: _process_drift[k] + sum_i x_i nu_k(cell_i)  =  margin.drift() + a_k + int_{T_k} x (1 - c_{R_k}) nu_k
                (cells of axis k, arithmetic middles, nu_k the margin's own density): the deterministic drift of margin k
                compensates the states of axis k weighted by the MARGINAL cell masses, exactly as the 1-d chain of that margin.
- copula-variance  D = _path_simulation.diffusion_matrix:  D D^T = diag(sigma_k^2) for finite-variation copula models (exact);
+ copula-variance  D = _path_simulation.diffusion_matrix ("finite variation" = every margin's OWN measure says so - at an index
+               of exactly 1 the index does not tell; a margin of infinite variation for which the small-jump covariance was not
+               even requested and whose diagonal entry is sigma_k^2 is reported: nothing-added-for-an-infinite-variation-margin):
+               D D^T = diag(sigma_k^2) for finite-variation copula models (exact);
                for infinite-variation ones with the scripted pool (all cases but the "diffusion" ones) D D^T = diag(sigma_k^2) + F,
                F the known positive definite matrix of (co)variances the stand-in pool answered with (exact: the answers are
                added once, as (co)variances, in dimension 2 and 3); with the real vol_adjustment_ij ("diffusion" cases) D D^T =
@@ -102,6 +141,12 @@ Outside the alphabet (statement silent or quantity does not exist), never an ala
    an in-process synchronous pool running the real vol_adjustment_ij and, every initialisation costing 5 - 30 s there, only the
    first operation of the history menu;
  * a process re-initialised after its grid object was refined by somebody else (the library builds a new process then);
+ * deterministic_path called with a list or a tuple (the library raises TypeError), copy.copy of a triplet (it shares the
+   conversion table bound to the original; the library never does it); central cells wider than [-1, 1] (h > 2: the statement
+   says "inside the central cell", the library integrates over its intersection with [-1, 1]);
+ * the sampler of a chain without any mass outside the central cell in double precision (Merton on the h = 2 grid: intensity
+   0.0, nothing to draw - C02): counted, the other identities are evaluated with an empty sum, paths are simulated without jumps;
+ * the simulated Brownian covariance in dimension 4 (the identifiable normals of the scripted source do not span R^4);
  * steps of a simulated path shorter than 1e-9 (residual duplicate times of the maximum-step refinement: C15's subject);
  * the jump component of the simulated paths (C15) and the law of the states drawn (C02): only the diffusion component is read.
 """
@@ -121,9 +166,11 @@ from mc import oracle as O
 PID = "C04"
 LEVEL = "exploration"
 RULE = (
-    "complete product (1-d model spec incl. reinit twins x declared representation x grid spec x refinements; margin pair / "
-    "triple x copula x representation incl. MIXED x 2-d / 3-d grid x refinements), each case followed by the complete HISTORY "
-    "menu on its one process object and, where flagged, the coupling's next_level on its one grid object; a case is non-trivial "
+    "complete product (1-d model spec incl. reinit twins, argument-form twins and copied models x declared representation incl. "
+    "two-hop conversions x grid spec incl. tie grids x refinements incl. deep levels; margin pair / triple / quadruple incl. the "
+    "Blumenthal-Getoor ties x copula x representation incl. MIXED x 2-d / 3-d / 4-d grid x refinements), each case followed "
+    "by the complete HISTORY menu on its one process object (where flagged), the caller disturbing its own model, and, where "
+    "flagged, the coupling's next_level (1..n levels) on its one grid object; a case is non-trivial "
     "when process_drift plus the rate-weighted states was compared with a quadrature mean whose own error estimate was below "
     "the tolerance; distinct = distinct case dict"
 )
@@ -142,7 +189,10 @@ ASSUMPTIONS = [
     "shares the copula function and the margins' integrate with the library (checked in C09/C11/C12)",
     "simulated paths: every draw of the library goes through the numpy.random module functions replaced by mc.c15_util."
     "ScriptedRNG (constant jump counts, generic times and normals); the standard normals of one numpy.random.normal call are laid "
-    "out component-major or step-major (both tried); a protocol the script does not recognise is counted, never an alarm",
+    "out component-major or step-major (both tried; 2 dim + 1 paths in dimension > 1 so that the fit is over-determined); a "
+    "protocol the script does not recognise is counted, never an alarm",
+    "differential oracles (argument forms, copies): exact equality for copies of the same computation and for scalar / integer / "
+    "(1, n) forms of deterministic_path (the same double operations); 4 ulp of sum |x_k| mass_k for the forms of compute_mu_h",
 ]
 CHUNK = 4
 
